@@ -176,7 +176,7 @@ def close(a, b, tol=1e-9):
 def check(run, replay=None):
     tier, seed = run.tier, run.seed
     rng = random.Random(seed * 7919 + 20)
-    C.standard_coq_phase(run, CID)
+    C.standard_coq_phase(run, CID, gens=("interp",))
     ok, msg = C.ensure_ocaml()
     if not ok:
         run.finding("build:ocaml", "broken-obligation", msg, {})
